@@ -340,7 +340,8 @@ namespace Example
 
 /-- toy scheme: a signature by key `k` over digest `d` is `1000*k + d`. -/
 def C0 : Crypto :=
-  { digest := fun f => (f.round.toNat * 31 + f.peerIdx.toNat * 7 + f.type.toNat) % 1000
+  { Digest := Nat
+    digest := fun f => (f.round.toNat * 31 + f.peerIdx.toNat * 7 + f.type.toNat) % 1000
     recover := fun d s => if s % 1000 = d then some (s / 1000) else none
     unmarshalAny := fun v => if v = 0 then none else some v
     hashInner := fun x => some (x + 100) }
@@ -349,7 +350,8 @@ def keys0 : List Key := [10, 11, 12, 13]
 def env0 : Env := { gater := fun d => d.slot ≤ 500, dl := fun d => if d.slot < 100 then .expired else .scheduled }
 def duty0 : DutyPb := { slot := 200, type := 2 }
 
-def sign (k : Key) (f : Fields) : Core := { fields := f, sig := some (1000 * k + C0.digest f) }
+def sign (k : Key) (f : Fields) : Core :=
+  { fields := f, sig := some (1000 * k + (f.round.toNat * 31 + f.peerIdx.toNat * 7 + f.type.toNat) % 1000) }
 
 def prepare1 : Core :=
   sign 11 { type := 2, duty := some duty0, peerIdx := 1, round := 1, preparedRound := 0,
@@ -383,6 +385,59 @@ example : handle C0 keys0 100 env0 {} (some { decided with just := List.replicat
 
 /-- rejected without touching the instances: buffer of size 0 is always full (`timeout`). -/
 example : (handle C0 keys0 0 env0 {} (some decided)).2 = .reject .timeout := by decide
+
+/-- `value_binding` is about non-empty buffers: one accepted request is in the buffer after `run`. -/
+example : (run C0 keys0 100 {} [⟨env0, some decided⟩]).insts.map (fun i => i.buf.length) = [1] := by decide
+
+/-- `limits_admit_honest` at the boundary for 4 nodes: 8 justifications with 18 values pass, a 19th
+value does not. -/
+example : verifyMsgLimits { decided with just := List.replicate 8 commit2, values := List.replicate 18 5 } 4 = none ∧
+    verifyMsgLimits { decided with just := List.replicate 8 commit2, values := List.replicate 19 5 } 4
+      = some .tooManyValues := by decide
+
+/-- A scheme satisfying the cryptographic hypotheses: the digest is injective (it is the field
+tuple itself) and exactly two signatures exist in the world, so it is unforgeable w.r.t. `Signed1`. -/
+def C1 : Crypto :=
+  { Digest := Fields
+    digest := fun f => f
+    recover := fun f sg =>
+      if f = prepare1.fields ∧ sg = 1 then some 11
+      else if f = commit2.fields ∧ sg = 2 then some 12 else none
+    unmarshalAny := C0.unmarshalAny
+    hashInner := C0.hashInner }
+
+def Signed1 (k : Key) (f : Fields) : Prop :=
+  (k = 11 ∧ f = prepare1.fields) ∨ (k = 12 ∧ f = commit2.fields)
+
+def decided1 : Wire :=
+  { main := some { prepare1 with sig := some 1 }, just := [{ commit2 with sig := some 2 }], values := [5] }
+
+/-- under this scheme the honest request is accepted … -/
+example : ∃ m, (handle C1 keys0 100 env0 {} (some decided1)).2 = .accept m ∧ m.just.length = 1 := by
+  refine ⟨_, rfl, ?_⟩; decide
+
+/-- … and `tamper_field_rejected` applies (its hypotheses are jointly satisfiable): the request with
+the round of the main message altered is rejected whatever else it carries. -/
+example : ∃ r, handle C1 keys0 100 env0 {}
+    (some { decided1 with main := some ⟨(FieldAlt.round 2).apply prepare1.fields, some 1⟩ }) = ({}, .reject r) :=
+  (tamper_field_rejected C1 keys0 100 env0 {} Signed1 (fun f => f = prepare1.fields ∨ f = commit2.fields)
+    (by
+      intro k _ d sg h
+      unfold C1 at h
+      simp only at h
+      split at h
+      · rename_i h1; cases h; exact ⟨prepare1.fields, Or.inl ⟨rfl, rfl⟩, h1.1.symm⟩
+      · split at h
+        · rename_i h2; cases h; exact ⟨commit2.fields, Or.inr ⟨rfl, rfl⟩, h2.1.symm⟩
+        · cases h)
+    (fun _ _ h => h)
+    (by
+      intro k _ f h
+      rcases h with ⟨_, h⟩ | ⟨_, h⟩
+      · exact Or.inl h
+      · exact Or.inr h)
+    prepare1.fields (.round 2) (by show (2 : Int) ≠ prepare1.fields.round; decide) (by decide)
+    (some 1) _ (Or.inl rfl)).2
 
 end Example
 
